@@ -241,6 +241,15 @@ Proof.
   rewrite dict_of_keys, map_map. cbn. reflexivity.
 Qed.
 
+Lemma combined_untouched h sep df sel :
+  firstn (length df) (combined h sep df sel) = df /\
+  Forall (fun c : column => length (snd c) = nrows df) (skipn (length df) (combined h sep df sel)).
+Proof. apply appends_firstn, combined_appends. Qed.
+Lemma combined_new_columns h sep df sel :
+  (forall c, In c (skipn (length df) (combined h sep df sel)) -> exists comb, In comb sel /\ c = combine_feature h sep df comb) /\
+  (forall nm, In nm (names (skipn (length df) (combined h sep df sel))) <-> In nm (map (join sep) sel)).
+Proof. split; [apply combined_new | apply combined_names]. Qed.
+
 (* ---------------- partitions ---------------- *)
 Lemma same_part_maps {A B C} (f : A -> B) (g : A -> C) (l : list A) :
   (forall x y, In x l -> In y l -> (f x = f y <-> g x = g y)) -> same_part (map f l) (map g l).
@@ -312,6 +321,14 @@ Proof.
   apply andb_true_iff. split.
   - apply pair_rowb_complete; auto. intros j a' b' E1 E2. apply (H 0 (S j) x a' y b'); auto.
   - apply IH. split; [congruence|]. intros i j. apply (H (S i) (S j)).
+Qed.
+
+Lemma partition_test_exact (xs : list N) (ys : list (list str)) :
+  same_partb N.eqb (list_eqb streqb) xs ys = true <-> same_part xs ys.
+Proof.
+  split.
+  - apply same_partb_sound; [apply N.eqb_eq | apply liststr_eqb_spec].
+  - apply same_partb_complete; [apply N.eqb_eq | apply liststr_eqb_spec].
 Qed.
 
 Section Score.
